@@ -97,7 +97,7 @@ def prune(keep):
     ents = []
     for e in os.listdir(BUILD):
         p = os.path.join(BUILD, e)
-        if os.path.isdir(p) and e != keep:
+        if os.path.isdir(p) and e != keep and e != "obj":
             ents.append((os.path.getmtime(p), p))
     ents.sort(reverse=True)
     for _, p in ents[2:]:
@@ -134,16 +134,58 @@ def build_lib(variant, key=None):
     return lib
 
 
+def include_hash():
+    h = hashlib.sha256()
+    root = os.path.join(REPO, "include")
+    for d, dirs, files in sorted(os.walk(root)):
+        dirs.sort()
+        for f in sorted(files):
+            p = os.path.join(d, f)
+            h.update(os.path.relpath(p, REPO).encode())
+            with open(p, "rb") as fh:
+                h.update(fh.read())
+    return h.hexdigest()[:12]
+
+
 def build_harness(name, variant="asan", key=None):
-    """name: h_xxx (rapidcheck harness) or fz_xxx (libFuzzer target, variant fuzz)"""
+    """name: h_xxx (rapidcheck harness) or fz_xxx (libFuzzer target, variant fuzz).
+    The harness object file depends only on the harness sources and the
+    repository's include/ directory, so it is cached separately from the
+    library: a change under src/ re-links but does not recompile the harness."""
     key = key or tree_hash()
     src = name + ".cpp"
     if name.startswith("fz_"):
         variant = "fuzz"
     lib = build_lib(variant, key)
     hh = harness_hash([src])
+    ih = include_hash()
     vdir = os.path.join(BUILD, key, variant)
     exe = os.path.join(vdir, "%s-%s" % (name, hh))
+    objdir = os.path.join(BUILD, "obj", variant)
+    obj = os.path.join(objdir, "%s-%s-%s.o" % (name, hh, ih))
+    v = VARIANTS[variant]
+    flags = list(v["flags"])
+    libs = ["-lpthread"]
+    if variant == "fuzz":
+        link_flags = [f.replace("fuzzer-no-link", "fuzzer") for f in flags]
+    else:
+        link_flags = flags
+        libs = ["-lrapidcheck"] + libs
+    with Lock(os.path.join(objdir, name + ".lock")):
+        if not os.path.exists(obj):
+            for old in os.listdir(objdir):
+                if old.startswith(name + "-") and old.endswith(".o"):
+                    try:
+                        if time.time() - os.path.getmtime(os.path.join(objdir, old)) > 6 * 3600:
+                            os.unlink(os.path.join(objdir, old))
+                    except OSError:
+                        pass
+            tmp = obj + ".tmp"
+            run([v["cxx"]] + flags + ["-I", os.path.join(REPO, "include"), "-I", HARNESS_DIR, "-c",
+                                        os.path.join(HARNESS_DIR, src), "-o", tmp], None)
+            os.rename(tmp, obj)
+        else:
+            os.utime(obj)
     with Lock(os.path.join(vdir, name + ".lock")):
         if os.path.exists(exe):
             return exe
@@ -153,16 +195,8 @@ def build_harness(name, variant="asan", key=None):
                     os.unlink(os.path.join(vdir, old))
                 except OSError:
                     pass
-        v = VARIANTS[variant]
-        flags = list(v["flags"])
-        libs = ["-lpthread"]
-        if variant == "fuzz":
-            flags = [f.replace("fuzzer-no-link", "fuzzer") for f in flags]
-        else:
-            libs = ["-lrapidcheck"] + libs
         tmp = exe + ".tmp"
-        run([v["cxx"]] + flags + ["-I", os.path.join(REPO, "include"), "-I", HARNESS_DIR,
-                                    os.path.join(HARNESS_DIR, src), lib, "-o", tmp] + libs, None)
+        run([v["cxx"]] + link_flags + [obj, lib, "-o", tmp] + libs, None)
         os.rename(tmp, exe)
     return exe
 
